@@ -18,6 +18,9 @@ theorem pres_lockA {s s' : St} {a : Act} (hI : Inv s) (h : step .repaired s a = 
   | block d =>
     simp only [step] at h
     (repeat' (split at h)) <;> (try cases h) <;> (simp only []; (have i_lockA := hI.lockA; have i_lockB := hI.lockB; grind [holdsStore]))
+  | repair d =>
+    simp only [step] at h
+    (repeat' (split at h)) <;> (try cases h) <;> (simp only []; (have i_lockA := hI.lockA; have i_lockB := hI.lockB; grind [holdsStore]))
   | run t0 =>
     simp only [step] at h
     split at h
